@@ -18,6 +18,9 @@ import (
 // Users funded at genesis.
 var Users = []string{"alice", "bob", "carol", "dave"}
 
+// PeerDenom is the realm denomination the peer realm issues and burns.
+const PeerDenom = "/gno.land/r/verif/peer:tok"
+
 // MsgSpec is an abstract message (addresses resolved at play time).
 type MsgSpec struct {
 	Kind   string   `json:"kind"` // call | run | addpkg | send
@@ -27,6 +30,8 @@ type MsgSpec struct {
 	Body   string   `json:"body,omitempty"`  // run: main.gno; addpkg: file body
 	To     string   `json:"to,omitempty"`    // send: user name or "realm:<path>"
 	Amount int64    `json:"amount,omitempty"`
+	Denom  string   `json:"denom,omitempty"` // send: default ugnot
+	To2    string   `json:"to2,omitempty"`   // multisend: second output (amount split in two)
 	Send   int64    `json:"send,omitempty"` // coins attached to call
 	MaxDep int64    `json:"maxdep,omitempty"`
 }
@@ -117,7 +122,7 @@ func storeOp(r *rand.Rand) MsgSpec {
 }
 
 func peerOp(r *rand.Rand) MsgSpec {
-	switch r.IntN(6) {
+	switch r.IntN(8) {
 	case 0, 1:
 		return MsgSpec{Kind: "call", Pkg: PeerPath, Func: "Relay", Args: []string{pick(r, tags)}}
 	case 2:
@@ -126,6 +131,8 @@ func peerOp(r *rand.Rand) MsgSpec {
 		return MsgSpec{Kind: "call", Pkg: PeerPath, Func: "Forget"}
 	case 4:
 		return MsgSpec{Kind: "call", Pkg: PeerPath, Func: "Pay", Args: []string{"@" + pick(r, Users), itoa(1 + r.IntN(5000))}}
+	case 5:
+		return MsgSpec{Kind: "call", Pkg: PeerPath, Func: "BurnCoin", Args: []string{"@" + pick(r, Users), "tok", itoa(1 + r.IntN(600))}}
 	default:
 		return MsgSpec{Kind: "call", Pkg: PeerPath, Func: "Mint", Args: []string{"@" + pick(r, Users), "tok", itoa(1 + r.IntN(1000))}}
 	}
@@ -262,6 +269,15 @@ func GenP(r *rand.Rand, seed uint64, nBlocks, maxTxs int, prof Profile) *History
 				}
 				tx.Msgs = []MsgSpec{{Kind: "send", To: to, Amount: amt}}
 				tx.Label = "send"
+				switch r.IntN(4) {
+				case 0: // realm-issued denomination (may be insufficient: then the message fails)
+					tx.Msgs[0].Denom = PeerDenom
+					tx.Msgs[0].Amount = int64(1 + r.IntN(400))
+					tx.Label = "send-realm-denom"
+				case 1: // two sends in one tx (bank.MsgMultiSend is not amino-registered, so it cannot travel in a tx)
+					tx.Msgs = append(tx.Msgs, MsgSpec{Kind: "send", To: pick(r, Users), Amount: int64(1 + r.IntN(1_000_000))})
+					tx.Label = "send-x2"
+				}
 			case k < 74:
 				// failing call after writes
 				if r.IntN(2) == 0 {
@@ -355,6 +371,20 @@ func Resolve(c *chainsim.Chain, signer *chainsim.Account, m MsgSpec) std.Msg {
 		msg.MaxDeposit = maxDep
 		msg.Send = send
 		return msg
+	case "multisend":
+		denom := "ugnot"
+		if m.Denom != "" {
+			denom = m.Denom
+		}
+		a1 := m.Amount / 2
+		a2 := m.Amount - a1
+		in := []bank.Input{{Address: signer.Addr, Coins: std.Coins{{Denom: denom, Amount: m.Amount}}}}
+		var out []bank.Output
+		if a1 > 0 {
+			out = append(out, bank.Output{Address: c.Acc(m.To).Addr, Coins: std.Coins{{Denom: denom, Amount: a1}}})
+		}
+		out = append(out, bank.Output{Address: c.Acc(m.To2).Addr, Coins: std.Coins{{Denom: denom, Amount: a2}}})
+		return bank.NewMsgMultiSend(in, out)
 	case "send":
 		var to crypto.Address
 		if strings.HasPrefix(m.To, "realm:") {
@@ -362,7 +392,11 @@ func Resolve(c *chainsim.Chain, signer *chainsim.Account, m MsgSpec) std.Msg {
 		} else {
 			to = c.Acc(m.To).Addr
 		}
-		return bank.MsgSend{FromAddress: signer.Addr, ToAddress: to, Amount: std.Coins{{Denom: "ugnot", Amount: m.Amount}}}
+		denom := "ugnot"
+		if m.Denom != "" {
+			denom = m.Denom
+		}
+		return bank.MsgSend{FromAddress: signer.Addr, ToAddress: to, Amount: std.Coins{{Denom: denom, Amount: m.Amount}}}
 	}
 	panic("unknown msg kind " + m.Kind)
 }
